@@ -468,4 +468,413 @@ theorem isTagPresent_of_perm (u : UnionDef) (perms : List String) (t : TagDef) (
   simp only [UnionDef.tagsSpec, List.mem_filter]
   exact ⟨ht, by simp [ho, hc]⟩
 
+/-! ### Part 2: keys of encoded structs, inversion of `encode` at user types -/
+
+@[simp] theorem PTy.flags_struct (fl : Flags) (cls : String) : (PTy.struct fl cls).flags = fl := rfl
+@[simp] theorem PTy.flags_tree (fl : Flags) (cls : String) : (PTy.tree fl cls).flags = fl := rfl
+@[simp] theorem PTy.flags_union (fl : Flags) (cls : String) : (PTy.union fl cls).flags = fl := rfl
+
+theorem assembleStruct_keys (fields : List FieldDef) (slots : List (String × PyVal)) (enc : List (String × R JVal))
+    (kvs : List (String × JVal)) (h : assembleStruct fields slots enc = .ok kvs) :
+    ∀ k ∈ kvs.map (·.1), k ∈ fields.map (·.name) := by
+  induction fields generalizing kvs with
+  | nil => simp [assembleStruct] at h; subst h; simp
+  | cons f rest ih =>
+    unfold assembleStruct at h
+    split at h
+    · simp [verr] at h
+    · split at h
+      · rename_i r _
+        cases r with
+        | error e => simp [bind, Except.bind] at h
+        | ok j =>
+          cases hm : assembleStruct rest slots enc with
+          | error e => simp [hm, bind, Except.bind] at h
+          | ok more =>
+            simp [hm, bind, Except.bind, pure, Except.pure] at h
+            subst h
+            intro k hk
+            simp only [List.map_cons, List.mem_cons] at hk ⊢
+            rcases hk with rfl | hk
+            · exact Or.inl rfl
+            · exact Or.inr (ih more hm k hk)
+      · intro k hk
+        exact List.mem_cons_of_mem _ (ih kvs h k hk)
+
+
+theorem assembleStruct_has_key (fields : List FieldDef) (slots : List (String × PyVal)) (enc : List (String × R JVal))
+    (kvs : List (String × JVal)) (h : assembleStruct fields slots enc = .ok kvs)
+    (f : FieldDef) (hf : f ∈ fields) (he : (lookupEnc f.name enc).isSome = true) :
+    f.name ∈ kvs.map (·.1) := by
+  induction fields generalizing kvs with
+  | nil => cases hf
+  | cons g rest ih =>
+    unfold assembleStruct at h
+    split at h
+    · simp [verr] at h
+    · split at h
+      · rename_i r _
+        cases r with
+        | error e => simp [bind, Except.bind] at h
+        | ok j =>
+          cases hm : assembleStruct rest slots enc with
+          | error e => simp [hm, bind, Except.bind] at h
+          | ok more =>
+            simp [hm, bind, Except.bind, pure, Except.pure] at h
+            subst h
+            simp only [List.map_cons, List.mem_cons]
+            rcases List.mem_cons.1 hf with rfl | hf'
+            · exact Or.inl rfl
+            · exact Or.inr (ih more hm hf')
+      · rename_i hnone
+        rcases List.mem_cons.1 hf with rfl | hf'
+        · rw [hnone] at he; simp at he
+        · exact ih kvs h hf'
+
+theorem lookupEnc_encodeSlots_isSome (E : Ext) (env : Env) (perms : List String) (redact : Bool)
+    (fields : List FieldDef) (slots : List (String × PyVal)) (f : FieldDef) (hf : f ∈ fields)
+    (x : PyVal) (hx : lookupSlot f.name slots = some x) (hnn : isNone x = false) :
+    (lookupEnc f.name (encodeSlots E env perms redact fields slots)).isSome = true := by
+  induction slots with
+  | nil => simp [lookupSlot] at hx
+  | cons kv rest ih =>
+    obtain ⟨k, y⟩ := kv
+    unfold lookupSlot at hx
+    unfold encodeSlots
+    by_cases hk : k = f.name
+    · subst hk
+      simp only [beq_self_eq_true, if_true, Option.some.injEq] at hx
+      subst hx
+      have hfind : (fields.find? (·.name == f.name)).isSome = true := by
+        rw [List.find?_isSome]
+        exact ⟨f, hf, by simp⟩
+      cases hfd : fields.find? (·.name == f.name) with
+      | none => rw [hfd] at hfind; simp at hfind
+      | some g =>
+        simp only [hnn]
+        simp [lookupEnc]
+    · have hk' : (k == f.name) = false := by simpa using hk
+      simp only [hk'] at hx
+      have := ih hx
+      split
+      · split
+        · exact this
+        · simp only [lookupEnc, hk']
+          exact this
+      · exact this
+
+theorem valDataType_spec (u : UnionDef) (tag : String) (perms : List String) (ft : PTy)
+    (h : u.valDataType tag perms = some ft) :
+    ∃ t ∈ u.tagsSpec perms, t.name = tag ∧ t.ty = ft := by
+  unfold UnionDef.valDataType at h
+  split at h
+  · rename_i t ht
+    simp only [Option.some.injEq] at h
+    obtain ⟨p, hp, hpt⟩ := List.exists_of_findSome?_eq_some ht
+    have hget : findTag tag ((u.tagmapAttr (some p)).getD []) = some t := by
+      cases hm : u.tagmapAttr (some p) with
+      | none => simp [hm] at hpt
+      | some m => simpa [hm] using hpt
+    simp only [UnionDef.tagmapAttr, tagmapAttrRev_getD] at hget
+    obtain ⟨hmem, hname⟩ := findTag_some_mem hget
+    simp only [List.mem_filter, List.mem_flatMap, List.mem_reverse] at hmem
+    have ho : t.omitted = some p := by simpa using hmem.2
+    refine ⟨t, ?_, hname, h⟩
+    simp only [UnionDef.tagsSpec, List.mem_filter, List.mem_flatMap]
+    exact ⟨hmem.1, by simp [ho, hp]⟩
+  · simp only [Option.map_eq_some_iff] at h
+    obtain ⟨t, hpt, hty⟩ := h
+    have hget : findTag tag ((u.tagmapAttr none).getD []) = some t := by
+      cases hm : u.tagmapAttr none with
+      | none => simp [hm] at hpt
+      | some m => simpa [hm] using hpt
+    simp only [UnionDef.tagmapAttr, tagmapAttrRev_getD] at hget
+    obtain ⟨hmem, hname⟩ := findTag_some_mem hget
+    simp only [List.mem_filter, List.mem_flatMap, List.mem_reverse] at hmem
+    have ho : t.omitted = none := by simpa using hmem.2
+    refine ⟨t, ?_, hname, hty⟩
+    simp only [UnionDef.tagsSpec, List.mem_filter, List.mem_flatMap]
+    exact ⟨hmem.1, by simp [ho]⟩
+
+/-- strict `decode_struct`: a member whose key is neither a field of the caller's table nor starts
+with ".tag" is refused -/
+theorem finishStruct_unknown (E : Ext) (env : Env) (perms : List String) (cls : String) (s : StructDef)
+    (kvs : List (String × JVal)) (children : List (String × R PyVal)) (hs : env.struct? cls = some s)
+    (k : String) (x : JVal) (hk : (k, x) ∈ kvs)
+    (hnot : ¬ k ∈ (s.fieldsFor perms).map (·.name)) (htag : k.startsWith ".tag" = false) :
+    finishStruct E env perms true cls kvs children = .error (.verr "unknown field") := by
+  unfold finishStruct
+  simp only [hs, Bool.true_and]
+  have hany : (kvs.any fun (k, _) => !((s.fieldsFor perms).map (·.name)).contains k && !k.startsWith ".tag") = true := by
+    rw [List.any_eq_true]
+    refine ⟨(k, x), hk, ?_⟩
+    simp only [Bool.and_eq_true, Bool.not_eq_true', htag, and_true]
+    simpa using hnot
+  rw [if_pos hany]
+  rfl
+
+theorem decode_struct_obj (E : Ext) (env : Env) (perms : List String) (strict : Bool) (fl : Flags) (cls : String)
+    (kvs : List (String × JVal)) :
+    decode E env perms strict (.struct fl cls) (.obj kvs) =
+      finishStruct E env perms strict cls kvs
+        (decodeMembers E env perms strict (memberTable env perms strict (.struct fl cls) kvs) kvs) := by
+  unfold decode
+  simp
+
+theorem redactValue_obj_dict {E : Ext} {r : Redactor} {v : PyVal} {kvs : List (String × JVal)}
+    (h : redactValue E r v = .ok (.obj kvs)) : ∃ d, v = .dict d := by
+  unfold redactValue at h
+  split at h
+  · simp at h
+  · exact ⟨_, rfl⟩
+  · exfalso
+    simp only [Except.ok.injEq] at h
+    unfold redactApply at h
+    repeat' split at h
+    all_goals simp at h
+
+/-- inversion of a successful `encode` at a plain struct validator -/
+theorem encode_struct_inv {E : Ext} {env : Env} {perms : List String} {redact norm : Bool} {fl : Flags}
+    {cls : String} {v : PyVal} {j : JVal}
+    (h : encode E env perms redact norm (.struct fl cls) v = .ok j) :
+    (redact = true ∧ ∃ r, redactValue E r v = .ok j) ∨
+    (fl.nullable = true ∧ isNone v = true ∧ j = .null) ∨
+    (∃ c slots s kvs, v = .struct c slots ∧ env.struct? cls = some s ∧
+      assembleStruct (s.fieldsFor perms) slots (encodeSlots E env perms redact (s.fieldsFor perms) slots) = .ok kvs ∧
+      j = .obj kvs) := by
+  unfold encode at h
+  dsimp only [PTy.flags_struct] at h
+  split at h
+  · rename_i r hr
+    left
+    cases redact
+    · simp at hr
+    · exact ⟨rfl, r, h⟩
+  · by_cases hn : (fl.nullable && isNone v) = true
+    · rw [if_pos hn] at h
+      right; left
+      simp only [Bool.and_eq_true] at hn
+      simp only [Except.ok.injEq] at h
+      exact ⟨hn.1, hn.2, h.symm⟩
+    · rw [if_neg hn] at h
+      split at h
+      · simp at h
+      · split at h
+        · rename_i r hr
+          left
+          cases redact
+          · simp at hr
+          · exact ⟨rfl, r, h⟩
+        · split at h
+          · simp at h
+          · split at h
+            · split at h
+              · rename_i c slots _ _ _ s hs
+                right; right
+                cases ha : assembleStruct (s.fieldsFor perms) slots
+                    (encodeSlots E env perms redact (s.fieldsFor perms) slots) with
+                | error e => simp [ha, Except.map] at h
+                | ok kvs =>
+                  simp only [ha, Except.map, Except.ok.injEq] at h
+                  exact ⟨c, slots, s, kvs, rfl, hs, ha, h.symm⟩
+              · simp [crash] at h
+            · simp [crash] at h
+
+theorem encode_tree_inv {E : Ext} {env : Env} {perms : List String} {redact norm : Bool} {fl : Flags}
+    {cls : String} {v : PyVal} {j : JVal}
+    (h : encode E env perms redact norm (.tree fl cls) v = .ok j) :
+    (redact = true ∧ ∃ r, redactValue E r v = .ok j) ∨
+    (fl.nullable = true ∧ isNone v = true ∧ j = .null) ∨
+    (∃ c slots s tag sd kvs, v = .struct c slots ∧ env.struct? cls = some s ∧
+      ([tag], c, false) ∈ s.subtypes.getD [] ∧ env.struct? c = some sd ∧
+      assembleStruct (sd.fieldsFor perms) slots (encodeSlots E env perms redact (sd.fieldsFor perms) slots) = .ok kvs ∧
+      j = .obj ((".tag", .str tag) :: kvs)) := by
+  unfold encode at h
+  dsimp only [PTy.flags_tree] at h
+  split at h
+  · rename_i r hr
+    left
+    cases redact
+    · simp at hr
+    · exact ⟨rfl, r, h⟩
+  · by_cases hn : (fl.nullable && isNone v) = true
+    · rw [if_pos hn] at h
+      right; left
+      simp only [Bool.and_eq_true] at hn
+      simp only [Except.ok.injEq] at h
+      exact ⟨hn.1, hn.2, h.symm⟩
+    · rw [if_neg hn] at h
+      split at h
+      · simp at h
+      · split at h
+        · rename_i r hr
+          left
+          cases redact
+          · simp at hr
+          · exact ⟨rfl, r, h⟩
+        · split at h
+          · simp at h
+          · split at h
+            · split at h
+              · split at h
+                · simp [crash] at h
+                · split at h
+                  · split at h
+                    · simp [crash] at h
+                    · split at h
+                      · rename_i c slots _ _ _ s hs _ sc isTree _ tag hfind hnt _ sd hsd
+                        right; right
+                        have hsc := List.find?_some hfind
+                        have hmem := List.mem_of_find?_eq_some hfind
+                        have hsc' : sc = c := by simpa using hsc
+                        have hit : isTree = false := by simpa using hnt
+                        subst hsc' hit
+                        cases ha : assembleStruct (sd.fieldsFor perms) slots
+                            (encodeSlots E env perms redact (sd.fieldsFor perms) slots) with
+                        | error e => simp [ha, Except.map] at h
+                        | ok kvs =>
+                          simp only [ha, Except.map, Except.ok.injEq] at h
+                          exact ⟨sc, slots, s, tag, sd, kvs, rfl, hs, hmem, hsd, ha, h.symm⟩
+                      · simp [crash] at h
+                  · simp [crash] at h
+              · simp [crash] at h
+            · simp [crash] at h
+
+
+theorem encode_union_inv {E : Ext} {env : Env} {perms : List String} {redact norm : Bool} {fl : Flags}
+    {cls : String} {v : PyVal} {j : JVal}
+    (h : encode E env perms redact norm (.union fl cls) v = .ok j) :
+    (redact = true ∧ ∃ r, redactValue E r v = .ok j) ∨
+    (fl.nullable = true ∧ isNone v = true ∧ j = .null) ∨
+    (∃ c tag payload u ft, v = .union c tag payload ∧ env.union? cls = some u ∧
+      u.isTagPresent tag perms = true ∧ u.valDataType tag perms = some ft ∧
+      (j = .obj [(".tag", .str tag)] ∨
+       ∃ j', encode E env perms redact false ft payload = .ok j' ∧
+         ((∃ fl' sc kvs, ft = .struct fl' sc ∧ j' = .obj kvs ∧ j = .obj ((".tag", .str tag) :: kvs)) ∨
+          j = .obj [(".tag", .str tag), (tag, j')]))) := by
+  unfold encode at h
+  dsimp only [PTy.flags_union] at h
+  split at h
+  · rename_i r hr
+    left
+    cases redact
+    · simp at hr
+    · exact ⟨rfl, r, h⟩
+  · by_cases hn : (fl.nullable && isNone v) = true
+    · rw [if_pos hn] at h
+      right; left
+      simp only [Bool.and_eq_true] at hn
+      simp only [Except.ok.injEq] at h
+      exact ⟨hn.1, hn.2, h.symm⟩
+    · rw [if_neg hn] at h
+      split at h
+      · simp at h
+      · split at h
+        · rename_i r hr
+          left
+          cases redact
+          · simp at hr
+          · exact ⟨rfl, r, h⟩
+        · split at h
+          · simp at h
+          · split at h
+            · split at h
+              · split at h
+                · simp [verr] at h
+                · split at h
+                  · simp [crash] at h
+                  · rename_i c tag payload _ _ _ u hu hpres _ ft hft
+                    right; right
+                    have hpres' : u.isTagPresent tag perms = true := by simpa using hpres
+                    refine ⟨c, tag, payload, u, ft, rfl, hu, hpres', hft, ?_⟩
+                    by_cases hc : ((match (generalizing := false) ft with | .void _ => true | _ => false) ||
+                        (ft.flags.nullable && isNone payload)) = true
+                    · left
+                      rw [if_pos] at h
+                      · simp only [Except.ok.injEq] at h
+                        exact h.symm
+                      · exact hc
+                    · right
+                      rw [if_neg] at h
+                      rotate_left
+                      · exact hc
+                      split at h
+                      · simp at h
+                      · rename_i j' hj'
+                        refine ⟨j', hj', ?_⟩
+                        split at h
+                        · left
+                          split at h
+                          · rename_i fl' sc _ kvs
+                            simp only [Except.ok.injEq] at h
+                            exact ⟨fl', sc, kvs, rfl, rfl, h.symm⟩
+                          · simp [crash] at h
+                          · simp [crash] at h
+                        · right
+                          simp only [Except.ok.injEq] at h
+                          exact h.symm
+              · simp [crash] at h
+            · simp [crash] at h
+
+
+theorem validate_union (E : Ext) (env : Env) (fl : Flags) (cls : String) (v : PyVal) :
+    validate E env (.union fl cls) v =
+      if fl.nullable && isNone v then .ok .none
+      else if unionTypeOk env cls v then .ok v else verr "expected union type" := by
+  unfold validate
+  cases v <;> rfl
+
+theorem validateTypeOnly_union (env : Env) (fl : Flags) (cls : String) (v : PyVal) :
+    validateTypeOnly env (.union fl cls) v =
+      if fl.nullable && isNone v then .ok ()
+      else if unionTypeOk env cls v then .ok () else verr "expected union type" := by
+  unfold validateTypeOnly
+  cases v <;> rfl
+
+theorem encode_union_tag_absent (E : Ext) (env : Env) (perms : List String) (redact norm : Bool) (fl : Flags)
+    (cls c tag : String) (payload : PyVal) (u : UnionDef)
+    (hu : env.union? cls = some u) (hp : u.isTagPresent tag perms = false)
+    (hnr : redact = false ∨ (fl.redactInner = none ∧ (fl.nullable = true → fl.redactOuter = none))) :
+    ∃ hint, encode E env perms redact norm (.union fl cls) (.union c tag payload) = .error (.verr hint) := by
+  have h1 : (if redact = true then (if fl.nullable = true then fl.redactOuter else fl.redactInner) else none) = none := by
+    rcases hnr with h | ⟨hi, ho⟩
+    · simp [h]
+    · by_cases hn : fl.nullable = true
+      · simp [hn, ho hn]
+      · simp [hn, hi]
+  have h2 : (if (redact && fl.nullable) = true then fl.redactInner else none) = none := by
+    rcases hnr with h | ⟨hi, _⟩
+    · simp [h]
+    · simp [hi]
+  unfold encode
+  dsimp only [PTy.flags_union]
+  rw [h1]
+  dsimp only
+  simp only [isNone, Bool.and_false, Bool.false_eq_true, if_false]
+  have hv : (if fl.nullable = true then validate E env (.union fl cls) (.union c tag payload)
+      else .ok (.union c tag payload)) = .ok (.union c tag payload) ∨
+      ∃ hint, (if fl.nullable = true then validate E env (.union fl cls) (.union c tag payload)
+      else .ok (.union c tag payload)) = .error (.verr hint) := by
+    by_cases hn : fl.nullable = true
+    · simp only [hn, if_true]
+      rw [validate_union]
+      simp only [isNone, Bool.and_false, Bool.false_eq_true, if_false]
+      split
+      · exact Or.inl rfl
+      · exact Or.inr ⟨_, rfl⟩
+    · simp [hn]
+  rcases hv with hv | ⟨hint, hv⟩
+  · rw [hv]
+    dsimp only
+    rw [h2]
+    dsimp only
+    simp only [PTy.withFlags, validateTypeOnly_union, isNone, Bool.and_false, Bool.false_eq_true, if_false]
+    by_cases hvt : unionTypeOk env cls (.union c tag payload) = true
+    · simp only [hvt, if_true, hu, hp]
+      exact ⟨_, rfl⟩
+    · simp only [hvt]
+      exact ⟨_, rfl⟩
+  · rw [hv]
+    exact ⟨_, rfl⟩
+
 end StoneVerif.Rt
